@@ -153,10 +153,14 @@ func addrs2(a []string) []string {
 	return a
 }
 
-func (r *vfResRun) open(id string, proto string, names []string, port string) {
+// open builds one rotation from host-name backends; every name has its own transport and port (as a configuration
+// may list  udp://hostA:5080  next to  tcp://hostB:5090 )
+func (r *vfResRun) open(id string, protos []string, names []string, ports []string) {
 	var urls []string
-	for _, n := range names {
-		urls = append(urls, fmt.Sprintf("%s://%s:%s", proto, n, port))
+	pm := vfM{}
+	for i, n := range names {
+		urls = append(urls, fmt.Sprintf("%s://%s:%s", protos[i], n, ports[i]))
+		pm[n] = ports[i]
 	}
 	rb, err := CreateRoundRobinBackend(net.JoinHostPort("", "0"), urls, func(net.Conn) {})
 	if err != nil {
@@ -164,7 +168,7 @@ func (r *vfResRun) open(id string, proto string, names []string, port string) {
 	}
 	r.rb = rb
 	rb.AddBackendChangeListener(r.p)
-	r.tr.Emit(vfM{"ev": "reset", "case": id, "port": port})
+	r.tr.Emit(vfM{"ev": "reset", "case": id, "ports": pm})
 }
 
 func TestVfResolver(t *testing.T) {
@@ -180,10 +184,10 @@ func TestVfResolver(t *testing.T) {
 	r.p = NewProxy("svc.example.com", 1200, r.g.ip("10.0.0.1"), false, NewPreConfigRoute(), NewPreConfigHostResolver(), NewSelfLearnRoute(), true, false)
 	ncase := 0
 	rnd := vfRand(190)
-	finish := func(id string, names []string, proto, port string) {
+	finish := func(id string, names []string, protos, ports []string) {
 		// leave nothing behind: the proxy object is shared by all cases
-		for _, n := range names {
-			r.step(id, n, proto, port, vfResOutcome{Ok: true, Addrs: []string{}})
+		for i, n := range names {
+			r.step(id, n, protos[i], ports[i], vfResOutcome{Ok: true, Addrs: []string{}})
 		}
 	}
 	if in := vfEnv("VERIF_IN", ""); in != "" {
@@ -201,11 +205,11 @@ func TestVfResolver(t *testing.T) {
 			proto := []string{"udp", "tcp"}[k%2]
 			id := fmt.Sprintf("tlc%d", k)
 			name := fmt.Sprintf("b%d.verif.invalid", k)
-			r.open(id, proto, []string{name}, "5070")
+			r.open(id, []string{proto}, []string{name}, []string{"5070"})
 			for _, o := range seq {
 				r.step(id, name, proto, "5070", o)
 			}
-			finish(id, []string{name}, proto, "5070")
+			finish(id, []string{name}, []string{proto}, []string{"5070"})
 			ncase++
 		})
 	}
@@ -215,12 +219,15 @@ func TestVfResolver(t *testing.T) {
 		proto := []string{"udp", "tcp"}[rnd.Intn(2)]
 		id := fmt.Sprintf("rand%d", i)
 		names := []string{fmt.Sprintf("r%da.verif.invalid", i)}
+		protos, ports := []string{proto}, []string{"5080"}
 		pools := [][]string{{"1", "2", "3", "4", "5"}}
 		if rnd.Intn(2) == 0 {
 			names = append(names, fmt.Sprintf("r%db.verif.invalid", i))
 			pools = [][]string{{"1", "2", "3"}, {"4", "5", "6", "7"}}
+			// the second name on its own port and, half of the time, its own transport
+			protos, ports = append(protos, []string{proto, "udp", "tcp"}[rnd.Intn(3)]), append(ports, []string{"5080", "5090", "5090"}[rnd.Intn(3)])
 		}
-		r.open(id, proto, names, "5080")
+		r.open(id, protos, names, ports)
 		n := 10 + rnd.Intn(51)
 		for s := 0; s < n; s++ {
 			w := rnd.Intn(len(names))
@@ -233,9 +240,9 @@ func TestVfResolver(t *testing.T) {
 				}
 				rnd.Shuffle(len(o.Addrs), func(x, y int) { o.Addrs[x], o.Addrs[y] = o.Addrs[y], o.Addrs[x] })
 			}
-			r.step(id, names[w], proto, "5080", o)
+			r.step(id, names[w], protos[w], ports[w], o)
 		}
-		finish(id, names, proto, "5080")
+		finish(id, names, protos, ports)
 		ncase++
 	}
 	fmt.Printf("VF cases=%d events=%d\n", ncase, tr.n)
